@@ -69,6 +69,19 @@ theorem waiting_only_while_port_alive (ops : List Op) (p : Nat) (c : Call)
   · intro d hd
     simpa [hd] using h2
 
+/-- (callee exit completes the call) The actor that owns a waiting call's port is the CALLEE
+itself: a caller still waits only if its callee is alive or a detached task holds the port.
+So when the callee stops, is killed, fails or finishes draining, every caller whose port it
+still owned has its answer (`SenderError`) — nobody hangs on a dead callee. -/
+theorem waits_only_for_live_callee (ops : List Op) (p : Nat) (c : Call)
+    (hc : (run ops).calls[p]? = some c) (hw : c.res = none) :
+    (∃ x, (run ops).actors[c.callee]? = some x ∧ x.alive = true) ∨ c.loc = .detached := by
+  rcases (waiting_only_while_port_alive ops p c hc hw).1 with ⟨a, x, hl, hx, ha⟩ | hd
+  · left
+    have := own_run ops p c hc a hl
+    rw [this]; exact ⟨x, hx, ha⟩
+  · exact Or.inr hd
+
 /-- (timeout) With a timeout the caller has an answer no later than the deadline. -/
 theorem answered_by_deadline (ops : List Op) (p : Nat) (c : Call) (d : Nat)
     (hc : (run ops).calls[p]? = some c) (hd : c.deadline = some d) (hnow : d ≤ (run ops).now) :
@@ -136,6 +149,7 @@ end C09
 #print axioms C09.success_is_own_reply
 #print axioms C09.senderError_is_own_drop
 #print axioms C09.waiting_only_while_port_alive
+#print axioms C09.waits_only_for_live_callee
 #print axioms C09.answered_by_deadline
 #print axioms C09.timeout_not_early
 #print axioms C09.dead_actor_owns_no_port
